@@ -23,6 +23,8 @@ import (
 	"github.com/bits-and-blooms/bloom/v3"
 	"github.com/daeuniverse/dae/common/consts"
 	"github.com/daeuniverse/dae/common/netutils"
+	"github.com/daeuniverse/dae/config"
+	componentdns "github.com/daeuniverse/dae/component/dns"
 	ob "github.com/daeuniverse/dae/component/outbound"
 	componentdialer "github.com/daeuniverse/dae/component/outbound/dialer"
 	"github.com/daeuniverse/dae/component/sniffing"
@@ -38,6 +40,9 @@ type c18Op struct {
 	Names []string `json:"names,omitempty"`
 	Qtype uint16 `json:"qtype,omitempty"`
 	Delta int64  `json:"delta,omitempty"` // ns, relative to the current (fake) time
+	// resolve: the answer to question (name as on the wire, qtype) with TTL seconds goes through the production
+	// store path (cacheKey of the question name, responseCacheKey, NormalizeAndCacheDnsResp_)
+	Ttl uint32 `json:"ttl,omitempty"`
 	// advance
 	Dt int64 `json:"dt,omitempty"`
 	// choose
@@ -74,7 +79,11 @@ type c18Str struct { // Go library answers about one string (the oracles of the 
 type c18Step struct {
 	Op     string `json:"op"`
 	Now    int64  `json:"now"`
-	Key    string `json:"key,omitempty"` // remember: base key used
+	Key    string `json:"key,omitempty"` // remember/resolve: base key the implementation used
+	Scope  string `json:"scope,omitempty"`
+	HostIsIp bool `json:"host_is_ip,omitempty"`
+	Known  bool   `json:"known,omitempty"`       // dnsKnowledge has the base key after the step
+	KnownDelta int64 `json:"known_delta,omitempty"` // its expiry minus now
 	Lt     string `json:"lt,omitempty"`  // ToLower(TrimSpace(raw))
 	Domain string `json:"domain,omitempty"`
 	KeyA   string `json:"key_a,omitempty"`
@@ -226,7 +235,40 @@ func c18RunInBubble(cs c18Case, res *c18Result) {
 	cp.dialMode = consts.DialMode(cs.Mode)
 	cp.outbounds = c18Groups
 	cp.soMarkFromDae = 0x100
-	cp.dnsController = &DnsController{dnsControllerStore: newDnsControllerStore()}
+	// the DNS controller as NewDnsController builds it, minus the janitor/evictor goroutines (their tickers
+	// would run on the bubble's clock and evict entries behind the history's back)
+	store := newDnsControllerStore()
+	store.janitorDone = nil
+	store.evictorDone = nil
+	ctrl := &DnsController{dnsControllerStore: store, concurrencyLimiter: make(chan struct{}, 64), log: lg, dnsForwarderIdleTTL: dnsForwarderIdleTTL}
+	routing, rerr := componentdns.New(&config.Dns{
+		Routing: config.DnsRouting{
+			Request:  config.DnsRequestRouting{Fallback: "asis"},
+			Response: config.DnsResponseRouting{Fallback: "accept"},
+		},
+	}, &componentdns.NewOption{Logger: lg, UpstreamReadyCallback: func(*componentdns.Upstream) error { return nil }})
+	if rerr != nil {
+		panic(rerr)
+	}
+	if err := ctrl.TryUpdateRuntime(&DnsControllerOption{
+		Log:                 lg,
+		LifecycleContext:    ctx,
+		CacheAccessCallback: func(*DnsCache) error { return nil },
+		CacheRemoveCallback: func(*DnsCache) error { return nil },
+		NewCache: func(fqdn string, answers, ns, extra []dnsmessage.RR, deadline, originalDeadline time.Time) (*DnsCache, error) {
+			return &DnsCache{Answer: answers, NS: ns, Extra: extra, Deadline: deadline, OriginalDeadline: originalDeadline}, nil
+		},
+	}, routing); err != nil {
+		panic(err)
+	}
+	defer func() { _ = ctrl.Close() }()
+	cp.dnsController = ctrl
+	peek := func(st *c18Step, key string) {
+		if v, ok := ctrl.dnsKnowledge.Load(key); ok {
+			st.Known = true
+			st.KnownDelta = v.(int64) - time.Now().UnixNano()
+		}
+	}
 	res.Now0 = time.Now().UnixNano()
 	for _, op := range cs.Ops {
 		st := c18Step{Op: op.Op, Now: time.Now().UnixNano()}
@@ -240,7 +282,34 @@ func c18RunInBubble(cs c18Case, res *c18Result) {
 			case "remember":
 				key := dnsCacheBaseKey(cp.dnsController.cacheKey(c18Unhex(op.Name), op.Qtype))
 				st.Key = c18Hex(key)
+				_, perr := netip.ParseAddr(strings.TrimSuffix(c18Unhex(op.Name), "."))
+				st.HostIsIp = perr == nil
 				cp.dnsController.rememberDnsKnowledge(key, time.Unix(0, time.Now().UnixNano()+op.Delta))
+				peek(&st, key)
+			case "resolve":
+				// what the DNS handler does once the upstream answered a client's question
+				qname := c18Unhex(op.Name)
+				msg := new(dnsmessage.Msg)
+				msg.Response = true
+				msg.Question = []dnsmessage.Question{{Name: qname, Qtype: op.Qtype, Qclass: dnsmessage.ClassINET}}
+				hdr := dnsmessage.RR_Header{Name: qname, Rrtype: op.Qtype, Class: dnsmessage.ClassINET, Ttl: op.Ttl}
+				if op.Qtype == dnsmessage.TypeAAAA {
+					msg.Answer = []dnsmessage.RR{&dnsmessage.AAAA{Hdr: hdr, AAAA: net.ParseIP("2001:db8::5")}}
+				} else {
+					msg.Answer = []dnsmessage.RR{&dnsmessage.A{Hdr: hdr, A: net.ParseIP("203.0.113.10").To4()}}
+				}
+				q := msg.Question[0]
+				baseKey := ctrl.cacheKey(q.Name, q.Qtype)
+				req := &udpRequest{realDst: netip.MustParseAddrPort("8.8.8.8:53")}
+				respKey := ctrl.responseCacheKey(baseKey, req, consts.DnsRequestOutboundIndex_AsIs, nil)
+				st.Scope = c18Hex(strings.TrimPrefix(respKey, baseKey+"|"))
+				_, perr := netip.ParseAddr(strings.TrimSuffix(qname, "."))
+				st.HostIsIp = perr == nil
+				if err := ctrl.NormalizeAndCacheDnsResp_(msg, respKey); err != nil {
+					st.Err = err.Error()
+				}
+				st.Key = c18Hex(dnsCacheBaseKey(respKey))
+				peek(&st, dnsCacheBaseKey(respKey))
 			case "advance":
 				if op.Dt > 0 {
 					time.Sleep(time.Duration(op.Dt))
